@@ -64,6 +64,8 @@ typedef bool (*segv_hook_t)(int sig, siginfo_t *si, void *uc);
 extern segv_hook_t g_segv_hook;
 extern void (*g_crash_hook)(const char *sym, void *addr); // library crashed outside any guarded call: report and exit
 
+extern __thread uint64_t t_stack_word; // dead-stack seam (regs.cc): the word every dead stack slot holds at a library call
+void scribble_stack();
 #define GUARDED(gc, ...)                                                                          \
         ({                                                                                         \
                 int _faulted = 0;                                                                  \
@@ -72,6 +74,7 @@ extern void (*g_crash_hook)(const char *sym, void *addr); // library crashed out
                 if (sigsetjmp((gc).jb, 0) == 0) {                                                  \
                         g_call_seq = g_call_seq + 1;                                               \
                         (gc).armed = 1;                                                            \
+                        scribble_stack();                                                          \
                         __VA_ARGS__;                                                               \
                         (gc).armed = 0;                                                            \
                 } else {                                                                           \
